@@ -371,3 +371,107 @@ def run_shapes(shapes, procs=16):
     out = [None] * len(shapes)
     for i, r in zip(order, res): out[i] = r
     return out
+
+# ---------------------------------------------------------------- symbolic gap sizes (layout fixed point for every distance)
+K_GAP = 8
+GAP_MAX = 1 << 20
+
+def gap_structures(R):
+    """every arrangement of R relative references and their R labels (reference i names label i), modulo renaming,
+    with a gap of symbolic size before, between and after the items"""
+    items = [('r', i) for i in range(R)] + [('l', i) for i in range(R)]
+    seen = set(); out = []
+    for perm in itertools.permutations(items):
+        # canonical: labels numbered in order of first appearance of either the reference or the label
+        order = []
+        for k, i in perm:
+            if i not in order: order.append(i)
+        canon = tuple((k, order.index(i)) for k, i in perm)
+        if canon in seen: continue
+        seen.add(canon); out.append(canon)
+    return out
+
+def gap_shape(struct, mnemonics=('BR', 'BRZ', 'BRN', 'LDAP')):
+    shape = [(K_GAP, None, None)]
+    for n, (k, i) in enumerate(struct):
+        shape.append((K_REL, mnemonics[i % len(mnemonics)], i) if k == 'r' else (K_LABEL, None, i))
+        shape.append((K_GAP, None, None))
+    return shape
+
+def analyse_gap_shape(L, shape):
+    """layout only (emit = 0) with every gap size symbolic in [0, 2^20]: the fixed point must be consistent for every distance"""
+    t0 = time.time()
+    E = L.engine(); st = State(); n = len(shape)
+    E.max_steps = 400000
+    kinds = st.alloc(4*n, 'kinds'); toks = st.alloc(4*n, 'toks'); args = st.alloc(4*n, 'args'); info = st.alloc(24*(n+2), 'info')
+    gaps = {}
+    for i, (k, mn, a) in enumerate(shape):
+        E.store(st, kinds.add(4*i), 4, k); E.store(st, toks.add(4*i), 4, L.TOK[mn] if mn else 0)
+        if k == K_GAP:
+            g = z3.BitVec(f'gap{i}', 32); gaps[i] = g; st.pc.append(z3.ULE(g, GAP_MAX)); v = g
+        else: v = a
+        E.store(st, args.add(4*i), 4, v)
+    rs = E.run('l_run', [n, kinds, toks, args, info, 0, 0], st)
+    findings = []; stats = dict(paths=len(rs), ret=0, throw=0, cut=0, obligations=0, discharged=0); smt = []
+    def vals_of(m): return {i: model_int(m, g) for i, g in gaps.items()} if m is not None else {}
+    for r in rs:
+        s = r.st
+        if r.kind == 'budget':
+            stats['cut'] += 1; ok_, m = E.sat(s)
+            findings.append(('hang', "layout does not reach a fixed point within the step budget (about 200 passes): possible non-termination of resolveLabels", vals_of(m))); continue
+        if r.kind != 'ret':
+            ok_, m = E.sat(s); findings.append(('crash', f"{r.kind}: {r.val}", vals_of(m))); continue
+        stats['ret'] += 1
+        inf = [[E.load(s, info.add(24*i + 4*j), 4) for j in range(6)] for i in range(n)]
+        pos = z3.BitVecVal(0, 32); claims = []; labpos = {}
+        for i, (k, mn, a) in enumerate(shape):
+            tokv, off, sz, val, isl, asm_ = inf[i]
+            claims.append(('layout', f"directive #{i} starts where the previous one ends", bv(off, 32) == pos))
+            if k == K_LABEL: labpos[a] = pos
+            pos = pos + bv(sz, 32)
+        for i, (k, mn, a) in enumerate(shape):
+            if k != K_REL: continue
+            tokv, off, sz, val, isl, asm_ = inf[i]
+            V = bv(val, 32); S = bv(sz, 32)
+            claims.append(('ref', f"reference #{i} ({mn} {NAMES[a]}): offset + size + operand == address of its label", bv(off, 32) + S + V == labpos[a]))
+            fits = z3.And(z3.UGE(S, 1), z3.ULE(S, 8),
+                          z3.If(V >= 0, z3.Or(S == 8, z3.ULT(V, z3.BitVecVal(1, 32) << (4*S))),
+                                z3.And(z3.UGE(S, 2), z3.Or(S == 8, V >= -(z3.BitVecVal(1, 32) << (4*S))))))
+            claims.append(('ref', f"operand of reference #{i} fits the {sz}-byte encoding the layout gave it", fits))
+        for cat, what, c in claims:
+            stats['obligations'] += 1
+            c = z3.simplify(c)
+            if z3.is_true(c): stats['discharged'] += 1; continue
+            ok_, m = E.sat(s, z3.Not(c))
+            if ok_: findings.append((cat, what, vals_of(m)))
+            else:
+                stats['discharged'] += 1
+                if len(smt) < 1:
+                    from lib.report import to_smt2
+                    smt.append(('unsat', to_smt2(list(s.pc) + [z3.Not(c)]), what))
+    stats.update(queries=E.nq, solver_s=E.tq, steps=E.steps, wall=time.time() - t0, functions=sorted(E.called))
+    return dict(shape=shape, stats=stats, findings=findings, smt=smt, gaps=True)
+
+def gap_text(shape, vals):
+    """assembly text realising a gap shape with concrete gap sizes (8-byte and 1-byte filler instructions)"""
+    out = []
+    for i, (k, mn, a) in enumerate(shape):
+        if k == K_GAP:
+            g = vals.get(i, 0)
+            out += ["LDAC 305419896"] * (g // 8) + ["OPR ADD"] * (g % 8)
+        elif k == K_REL: out.append(f"{mn} {NAMES[a]}")
+        elif k == K_LABEL: out.append(NAMES[a])
+    return '\n'.join(out) + '\n'
+
+def _gap_worker(shape):
+    global _L
+    if _L is None: _L = Lay()
+    try: return analyse_gap_shape(_L, shape)
+    except Exception as e:
+        import traceback
+        return dict(shape=shape, error=f"{type(e).__name__}: {e}", tb=traceback.format_exc()[-1500:], stats={}, findings=[])
+
+def run_gap_shapes(shapes, procs=16):
+    Lay()
+    with multiprocessing.Pool(procs) as pool:
+        return pool.map(_gap_worker, shapes, chunksize=1)
